@@ -73,6 +73,19 @@ func (c *valueArrayCache) shrink(newlen int) {
 	}
 }
 
+// setReflectValue re-points the wrapper and, for a Go array (whose elements move with it), the element
+// wrappers it has handed out.
+func (o *objectGoArrayReflect) setReflectValue(v reflect.Value) {
+	o.objectGoReflect.setReflectValue(v)
+	if v.Kind() == reflect.Array {
+		for i, w := range o.valueCache {
+			if w != nil && i < v.Len() {
+				w.setReflectValue(v.Index(i))
+			}
+		}
+	}
+}
+
 func (o *objectGoArrayReflect) _init() {
 	o.objectGoReflect.init()
 	o.class = classArray
